@@ -46,6 +46,15 @@ def harvest_leaves():
         leaves["ARBFV2o%d" % order] = (K.DiffARBFV2, [], {"order": order, "length_scale": ls4.copy(), "scale": list(sc)})
         leaves["AddRQo%d" % order] = (K.DiffAddRQ, [], {"order": order, "alpha": 1.7, "length_scale": ls4.copy(), "scale": list(sc)})
         leaves["AddLLRBFo%d" % order] = (K.DiffAddLLRBF, [], {"order": order, "alpha": 1.7, "length_scale": ls4.copy(), "scale": list(sc)})
+    # fixed hyper-parameters are excluded from theta and from the gradient: each block of the additive kernels fixed in turn
+    # (F36: with the length scale fixed the scale derivatives were written one block too far)
+    sc3 = [0.3, 0.6, 1.0]
+    for nm, cls, extra in (("ARBF", K.DiffARBF, {}), ("ARBFV2", K.DiffARBFV2, {}), ("AddRQ", K.DiffAddRQ, {"alpha": 1.7}),
+                           ("AddLLRBF", K.DiffAddLLRBF, {"alpha": 1.7})):
+        leaves[nm + "fixL"] = (cls, [], dict(extra, order=2, length_scale=ls4.copy(), scale=list(sc3), length_scale_bounds="fixed"))
+        leaves[nm + "fixS"] = (cls, [], dict(extra, order=2, length_scale=ls4.copy(), scale=list(sc3), scale_bounds="fixed"))
+    leaves["ARBFV2isofixL"] = (K.DiffARBFV2, [], {"order": 3, "length_scale": 0.8, "scale": [0.3, 0.5, 0.8, 1.0], "length_scale_bounds": "fixed"})
+    leaves["AddRQisofixL"] = (K.DiffAddRQ, [], {"order": 3, "alpha": 1.7, "length_scale": 0.8, "scale": [0.3, 0.5, 0.8, 1.0], "length_scale_bounds": "fixed"})
     leaves["SubsetARBFo4"] = (K.SubsetARBF, [[3, 0, 2, 1]], {"order": 4, "length_scale": ls4.copy(), "scale": list(np.linspace(0.3, 1.0, 5))})
     return leaves
 
